@@ -605,7 +605,36 @@ func extractPipe(w *strings.Builder) error {
 		}
 	}
 
+	// the OpenAPI assembly modelled in Pipe/SwaggerDoc.lean: statement skeletons of addMethod,
+	// convertObjectItem / convertOneofItem, ConvertRootSchema, BuildSwagger and the `$ref` formats
+	swaggerOperationSkeleton := skeleton("internal/export/swagger.go", "addMethod")
+	swaggerObjectSkeleton := skeleton("internal/export/convert.go", "convertObjectItem")
+	swaggerOneofSkeleton := skeleton("internal/export/convert.go", "convertOneofItem")
+	swaggerRootSkeleton := skeleton("internal/export/convert.go", "ConvertRootSchema")
+	swaggerBuildSkeleton := skeleton("internal/export/convert.go", "BuildSwagger")
+	swaggerRefFormats := []string{}
+	for _, f := range skeleton("internal/export/convert.go", "convertSchema") {
+		if strings.HasPrefix(f, "Sprintf ") && strings.Contains(f, "#/") {
+			swaggerRefFormats = append(swaggerRefFormats, f)
+		}
+	}
+
 	fmt.Fprintf(w, "namespace J5V.Generated.Pipe\n")
+	// buildListRequest: what the array search ranges over (the response's own properties, like the
+	// compiler's checkListMethod; not its client properties)
+	listRequestRanges := []string{}
+	for _, f := range skeleton("internal/j5client/list.go", "buildListRequest") {
+		if strings.HasPrefix(f, "range ") {
+			listRequestRanges = append(listRequestRanges, f)
+		}
+	}
+	fmt.Fprintf(w, "def listRequestRanges : List String := %s\n", leanStrList(listRequestRanges))
+	fmt.Fprintf(w, "def swaggerOperationSkeleton : List String := %s\n", leanStrList(swaggerOperationSkeleton))
+	fmt.Fprintf(w, "def swaggerObjectSkeleton : List String := %s\n", leanStrList(swaggerObjectSkeleton))
+	fmt.Fprintf(w, "def swaggerOneofSkeleton : List String := %s\n", leanStrList(swaggerOneofSkeleton))
+	fmt.Fprintf(w, "def swaggerRootSkeleton : List String := %s\n", leanStrList(swaggerRootSkeleton))
+	fmt.Fprintf(w, "def swaggerBuildSkeleton : List String := %s\n", leanStrList(swaggerBuildSkeleton))
+	fmt.Fprintf(w, "def swaggerRefFormats : List String := %s\n", leanStrList(swaggerRefFormats))
 	fmt.Fprintf(w, "def fieldOneofMembers : List String := %s\n", leanStrList(members))
 	fmt.Fprintf(w, "def convertSchemaArms : List String := %s\n", leanStrList(convArms))
 	fmt.Fprintf(w, "def convertSchemaHasDefaultError : Bool := %s\n", leanBool(convDefault))
@@ -642,4 +671,75 @@ func extractPipe(w *strings.Builder) error {
 	fmt.Fprintf(w, "def swaggerRangeLoops : List String := %s\n", leanStrList(swaggerServiceLoops))
 	fmt.Fprintf(w, "end J5V.Generated.Pipe\n")
 	return nil
+}
+
+// skeleton: the control structure of a function in source order, as strings: range loops, if
+// conditions, type-switch arms, the In / Required / Code fields of composite literals, map-index
+// assignments, and fmt.Sprintf / fmt.Errorf-free format strings of Sprintf calls. A function that
+// is not found gives ["<name not found>"], so that the dependent obligation fails.
+func skeleton(file, fn string) []string {
+	_, f, err := parseFile(file)
+	if err != nil {
+		return []string{"<" + file + " unreadable>"}
+	}
+	fd := funcDecl(f, fn)
+	if fd == nil || fd.Body == nil {
+		return []string{"<" + fn + " not found>"}
+	}
+	var render func(e ast.Expr) string
+	render = func(e ast.Expr) string {
+		switch x := e.(type) {
+		case *ast.BinaryExpr:
+			return render(x.X) + " " + x.Op.String() + " " + render(x.Y)
+		case *ast.UnaryExpr:
+			return x.Op.String() + render(x.X)
+		case *ast.ParenExpr:
+			return "(" + render(x.X) + ")"
+		case *ast.CallExpr:
+			args := []string{}
+			for _, a := range x.Args {
+				args = append(args, render(a))
+			}
+			return exprString(x.Fun) + "(" + strings.Join(args, ", ") + ")"
+		}
+		return exprString(e)
+	}
+	out := []string{}
+	ast.Inspect(fd.Body, func(n ast.Node) bool {
+		switch x := n.(type) {
+		case *ast.RangeStmt:
+			out = append(out, "range "+render(x.X))
+		case *ast.IfStmt:
+			out = append(out, "if "+render(x.Cond))
+		case *ast.CaseClause:
+			if len(x.List) == 0 {
+				out = append(out, "default")
+			}
+			for _, e := range x.List {
+				out = append(out, "case "+render(e))
+			}
+		case *ast.KeyValueExpr:
+			if id, ok := x.Key.(*ast.Ident); ok && (id.Name == "In" || id.Name == "Required" || id.Name == "Code" || id.Name == "IsOneof") {
+				out = append(out, id.Name+": "+render(x.Value))
+			}
+		case *ast.AssignStmt:
+			if len(x.Lhs) == 1 {
+				if ix, ok := x.Lhs[0].(*ast.IndexExpr); ok {
+					out = append(out, render(ix.X)+"["+render(ix.Index)+"] =")
+				}
+			}
+		case *ast.CallExpr:
+			if exprString(x.Fun) == "fmt.Sprintf" && len(x.Args) > 0 {
+				if bl, ok := x.Args[0].(*ast.BasicLit); ok {
+					args := []string{}
+					for _, a := range x.Args[1:] {
+						args = append(args, render(a))
+					}
+					out = append(out, "Sprintf "+bl.Value+" "+strings.Join(args, ", "))
+				}
+			}
+		}
+		return true
+	})
+	return out
 }
